@@ -54,6 +54,7 @@ type c15Env struct {
 	lastBotSend mem.AccessReq
 	pendingQ    []int              // accepted, not yet answered, not discarded (acceptance order)
 	lastRsp     map[string]sim.Msg // bottom id -> last response the ROB consumed for it
+	sentData    map[string][]byte  // response message id -> payload as built by the harness
 	seenIDs     map[string]bool
 	ctlPending  []*mem.ControlMsg
 	nAccepted   int
@@ -93,6 +94,9 @@ func (e *c15Env) Func(ctx sim.HookCtx) {
 			if dr, ok := rsp.(*mem.DataReadyRsp); ok {
 				cp := *dr
 				cp.Data = append([]byte(nil), dr.Data...)
+				if sent, ok := e.sentData[dr.Meta().ID]; ok {
+					cp.Data = sent
+				}
 				rsp = &cp
 			}
 			e.lastRsp[rsp.GetRspTo()] = rsp
@@ -311,7 +315,7 @@ func newC15Env(r *Run, line string, cfg []string, live *c15Engine) *c15Env {
 	}
 	e := &c15Env{r: r, line: line, rb: rb, eng: eng, cap: capN,
 		byID: map[string]int{}, botOwner: map[string]int{}, botNum: map[string]int{},
-		lastRsp: map[string]sim.Msg{}, seenIDs: map[string]bool{}}
+		lastRsp: map[string]sim.Msg{}, sentData: map[string][]byte{}, seenIDs: map[string]bool{}}
 	e.top, e.bot, e.ctl = rb.VerifPorts()
 	conn := &fakeConn{name: "c15"}
 	for _, p := range []sim.Port{e.top, e.bot, e.ctl} {
@@ -376,6 +380,15 @@ func (e *c15Env) deliverTop(m mem.AccessReq) {
 }
 
 func (e *c15Env) payloadFor(b mem.AccessReq, s string) (sim.Msg, bool) {
+	m, ok := e.payloadFor0(b, s)
+	if dr, isData := m.(*mem.DataReadyRsp); ok && isData {
+		// what the lower level sends, byte for byte (the ROB holds the same object afterwards)
+		e.sentData[dr.Meta().ID] = append([]byte(nil), dr.Data...)
+	}
+	return m, ok
+}
+
+func (e *c15Env) payloadFor0(b mem.AccessReq, s string) (sim.Msg, bool) {
 	src, dst, id := sim.RemotePort(c15BottomUnit), b.Meta().Src, b.Meta().ID
 	switch {
 	case strings.HasPrefix(s, "a"):
